@@ -111,3 +111,25 @@ Definition table_to_json (name : str) (dests : list str) (cols : list (str * str
   | Some c => Some {| j_name := name; j_dests := dests; j_cols := c |}
   | None => None
   end.
+
+(* The frame make_table_dataframe builds from the precursor's columns, seen through list(df[col])
+   (what table_to_json_data reads): pandas hands every stored value back as a python scalar. *)
+Section FrameScalars.
+Variable render_dt : dtok -> str.     (* str(timestamp) *)
+Variable float_repr : ftok -> str.    (* str(float) *)
+Definition scalar_of_value (v : value) : cell :=
+  match v with
+  | VText s => CStr s
+  | VBool b => CBool b
+  | VNum f => CFloat f (float_repr f)
+  | VDate d => CDate d (render_dt d)
+  | VNaT => CNaT
+  | VCustom k => COther k []
+  end.
+Fixpoint frame_zip (a b : list str) (c : list (list value)) : list (str * str * list cell) :=
+  match a, b, c with
+  | x :: a', y :: b', z :: c' => (x, y, map scalar_of_value z) :: frame_zip a' b' c'
+  | _, _, _ => []
+  end.
+Definition frame_cols (p : ptable) : list (str * str * list cell) := frame_zip (p_names p) (p_units p) (p_cols p).
+End FrameScalars.
